@@ -1,0 +1,15 @@
+//go:build verif
+
+// Contracts for package scorer (read by /verif/gocv; comment-only effect with the verif tag off).
+
+package scorer
+
+// The disjunction scorer reuses constituents[0] as the result: it overwrites its score, explanation
+// and term locations; the id and everything else stay (scoring arithmetic is not under contract).
+//@ func DisjunctionQueryScorer.Score
+//@   props C08 C02
+//@   mode int
+//@   trusted scoring arithmetic and location merging are not under contract
+//@   requires s != nil && len(constituents) > 0 && forall(k, 0, len(constituents), constituents[k] != nil)
+//@   modifies constituents[0].Score, constituents[0].Expl, constituents[0].FieldTermLocations
+//@   ensures result == constituents[0]
